@@ -364,4 +364,362 @@ theorem item_keeps_covered (s : Sys) (hwf : s.alloc.WF) (hcov : CoveredAll s) (n
         rw [this]; exact OptPoolLe.refl _
       · exact ⟨d, by rw [Alloc.get?_set_ne _ _ _ _ hij]; exact hd, fun g => OptPoolLe.refl _⟩
 
+
+/-- a range field the model's theorems cover: a parsed CIDR as Go delivers it, not the single 2^32-block geometry -/
+def FieldOK (fld : RangeField) (hb : Int) : Prop :=
+  match fld with
+  | .ok c _ => c.WF ∧ ¬ (c.fam = .v4 ∧ c.len = 0 ∧ hb = 0)
+  | _ => True
+
+def SpecOK (sp : CCSpec) : Prop := FieldOK sp.ipv4 sp.hostBits ∧ FieldOK sp.ipv6 sp.hostBits
+
+theorem buildPool_ok {fld : RangeField} {want : Fam} {hb : Int} {p : Pool} (hf : FieldOK fld hb)
+    (h : buildPool fld want hb = some (some p)) : PoolOK want p := by
+  unfold buildPool at h
+  split at h
+  · cases h
+  · cases h
+  · rename_i c label
+    split at h
+    · cases h
+    · rename_i hfam
+      cases hg : newGeo c hb with
+      | none => rw [hg] at h; cases h
+      | some g =>
+        rw [hg] at h
+        simp only [Option.some.injEq] at h
+        subst h
+        obtain ⟨hcw, hnot⟩ := hf
+        have hv := C13.newGeo_valid hcw hg
+        have hgf : g.fam = c.fam := by
+          unfold newGeo at hg; simp only at hg
+          split at hg
+          · cases hg
+          · split at hg
+            · cases hg
+            · cases hg; rfl
+        refine ⟨Pool.new_inv g label, ⟨hv, ?_⟩, by simp [Pool.new, hgf]; simpa using hfam⟩
+        -- capacity below 2^32 unless IPv6
+        cases hcf : c.fam with
+        | v6 => right; simp [Pool.new, hgf, hcf]
+        | v4 =>
+          left
+          unfold newGeo at hg; simp only at hg
+          split at hg
+          · cases hg
+          · split at hg
+            · cases hg
+            · rename_i h1 h2
+              cases hg
+              simp only [Pool.new, Geo.max]
+              have hW : c.W = 32 := by simp [Cidr.W, hcf, Fam.W]
+              apply Nat.pow_lt_pow_right (by decide)
+              have hl := hcw.1
+              have : ¬ (c.len = 0 ∧ hb = 0) := fun hh => hnot ⟨hcf, hh.1, hh.2⟩
+              omega
+
+theorem buildCC_WF {key : String} {reqs : List Req} {name : String} {spec : CCSpec} {t : Bool} {c : CC}
+    (hs : SpecOK spec) (h : buildCC key reqs name spec t = some c) : c.WF := by
+  unfold buildCC at h
+  cases h4 : buildPool spec.ipv4 .v4 spec.hostBits with
+  | none => rw [h4] at h; cases h
+  | some p4 =>
+    rw [h4] at h
+    cases h6 : buildPool spec.ipv6 .v6 spec.hostBits with
+    | none => rw [h6] at h; cases h
+    | some p6 =>
+      rw [h6] at h
+      simp only at h
+      split at h
+      · cases h
+      · cases h
+        intro f p hp
+        cases f with
+        | v4 =>
+          simp only [CC.pool] at hp
+          subst hp
+          exact buildPool_ok hs.1 h4
+        | v6 =>
+          simp only [CC.pool] at hp
+          subst hp
+          exact buildPool_ok hs.2 h6
+
+theorem Alloc.WF_append {a : Alloc} (ha : a.WF) {c : CC} (hc : c.WF) : (Alloc.mk (a.ccs ++ [c])).WF := by
+  intro j d hd
+  unfold Alloc.get? at hd
+  simp only at hd
+  by_cases hj : j < a.ccs.length
+  · rw [List.getElem?_append_left hj] at hd; exact ha j d hd
+  · rw [List.getElem?_append_right (by omega)] at hd
+    cases hk : j - a.ccs.length with
+    | zero => rw [hk] at hd; simp at hd; subst hd; exact hc
+    | succ k => rw [hk] at hd; simp at hd
+
+theorem createCC_WF {a a' : Alloc} (ha : a.WF) {name : String} {spec : CCSpec} {t : Bool} (hs : SpecOK spec)
+    (h : a.createCC name spec t = some a') : a'.WF := by
+  unfold Alloc.createCC at h
+  cases hsel : selectorOf spec.sel with
+  | none => rw [hsel] at h; cases h
+  | some reqs =>
+    rw [hsel] at h
+    simp only at h
+    split at h
+    · cases h; exact ha
+    · cases hb : buildCC (printSel reqs) reqs name spec t with
+      | none => rw [hb] at h; cases h
+      | some c => rw [hb] at h; cases h; exact Alloc.WF_append ha (buildCC_WF hs hb)
+
+/-- `filterOutServiceRange` only adds to the pools -/
+theorem filterService_poolsLe (a : Alloc) (ha : a.WF) (svc : Cidr) (hsvc : svc.WF) : PoolsLe a (a.filterService svc) := by
+  refine ⟨by simp [Alloc.filterService], ?_⟩
+  intro j c hc
+  refine ⟨c.occupyService svc, by unfold Alloc.filterService Alloc.get? at *; simp [hc], ?_⟩
+  intro g
+  unfold CC.occupyService
+  cases hp : c.pool svc.fam with
+  | none => simp only; exact OptPoolLe.refl _
+  | some p =>
+    simp only
+    split
+    · unfold CC.occupy
+      rw [hp]
+      simp only
+      cases hocc : p.occupy svc with
+      | none => simp only; exact OptPoolLe.refl _
+      | some p' =>
+        simp only
+        have hok := ha j c hc _ p hp
+        obtain ⟨_, hg, _, hl, hm⟩ := (C14.occupy_refines hok.2.1 hok.1 hsvc).2 p' hocc
+        by_cases hgf : g = svc.fam
+        · subst hgf
+          rw [hp, CC.pool_setPool_same]
+          exact ⟨hg, hl, fun k hk => (hm k).mpr (Or.inl hk)⟩
+        · rw [CC.pool_setPool_other _ _ _ _ hgf]; exact OptPoolLe.refl _
+    · exact OptPoolLe.refl _
+
+/-- all service ranges of a start-up are covered after the fold of `filterOutServiceRange` -/
+theorem filterAll_covers : ∀ (svcs : List Cidr) (a : Alloc), a.WF → (∀ s ∈ svcs, s.WF) →
+    (svcs.foldl (fun a sv => a.filterService sv) a).WF ∧
+    (∀ s ∈ svcs, Covered (svcs.foldl (fun a sv => a.filterService sv) a) s) ∧
+    PoolsLe a (svcs.foldl (fun a sv => a.filterService sv) a) := by
+  intro svcs
+  induction svcs with
+  | nil => intro a ha _; exact ⟨ha, by simp, PoolsLe.refl a⟩
+  | cons sv rest ih =>
+    intro a ha hw
+    have hsv := hw sv (List.mem_cons_self ..)
+    obtain ⟨hwf1, hcov1⟩ := filterService_covers a ha sv hsv
+    obtain ⟨hwf2, hcov2, hle2⟩ := ih (a.filterService sv) hwf1 (fun s hs => hw s (List.mem_cons_of_mem _ hs))
+    simp only [List.foldl_cons]
+    refine ⟨hwf2, ?_, PoolsLe.trans (filterService_poolsLe a ha sv hsv) hle2⟩
+    intro s hs
+    rcases List.mem_cons.mp hs with rfl | hs
+    · exact Covered_of_poolsLe hle2 hcov1
+    · exact hcov2 s hs
+
+
+
+theorem CC.occupy_poolsLe {c c' : CC} (hc : c.WF) {cd : Cidr} (hcd : cd.WF) (h : c.occupy cd = some c') :
+    c'.WF ∧ ∀ g, OptPoolLe (c.pool g) (c'.pool g) := by
+  refine ⟨CC.WF_occupy hc hcd h, ?_⟩
+  unfold CC.occupy at h
+  cases hp : c.pool cd.fam with
+  | none => rw [hp] at h; cases h
+  | some p =>
+    rw [hp] at h
+    simp only at h
+    cases hocc : p.occupy cd with
+    | none => rw [hocc] at h; cases h
+    | some p' =>
+      rw [hocc] at h
+      cases h
+      have hok := hc _ p hp
+      obtain ⟨_, hg, _, hl, hm⟩ := (C14.occupy_refines hok.2.1 hok.1 hcd).2 p' hocc
+      intro g
+      by_cases hgf : g = cd.fam
+      · subst hgf; rw [hp, CC.pool_setPool_same]; exact ⟨hg, hl, fun k hk => (hm k).mpr (Or.inl hk)⟩
+      · rw [CC.pool_setPool_other _ _ _ _ hgf]; exact OptPoolLe.refl _
+
+theorem CC.occupyList_poolsLe : ∀ (cidrs : List Cidr) (c : CC), c.WF → (∀ cd ∈ cidrs, cd.WF) →
+    (c.occupyList cidrs).1.WF ∧ ∀ g, OptPoolLe (c.pool g) ((c.occupyList cidrs).1.pool g) := by
+  intro cidrs
+  induction cidrs with
+  | nil => intro c hc _; exact ⟨hc, fun g => OptPoolLe.refl _⟩
+  | cons cd rest ih =>
+    intro c hc hw
+    unfold CC.occupyList
+    cases ho : c.occupy cd with
+    | none => simp only; exact ⟨hc, fun g => OptPoolLe.refl _⟩
+    | some c' =>
+      simp only
+      obtain ⟨hwf', hle'⟩ := CC.occupy_poolsLe hc (hw cd (List.mem_cons_self ..)) ho
+      obtain ⟨hwf2, hle2⟩ := ih c' hwf' (fun x hx => hw x (List.mem_cons_of_mem _ hx))
+      exact ⟨hwf2, fun g => OptPoolLe.trans (hle' g) (hle2 g)⟩
+
+theorem PoolsLe_set {a : Alloc} {i : Nat} {c c' : CC} (hget : a.get? i = some c)
+    (hle : ∀ g, OptPoolLe (c.pool g) (c'.pool g)) : PoolsLe a (a.set i c') := by
+  refine ⟨by simp, ?_⟩
+  intro j d hd
+  by_cases hij : i = j
+  · subst hij; rw [hget] at hd; cases hd
+    exact ⟨c', Alloc.get?_set_self _ _ _ _ hget, hle⟩
+  · exact ⟨d, by rw [Alloc.get?_set_ne _ _ _ _ hij]; exact hd, fun g => OptPoolLe.refl _⟩
+
+theorem addAssoc_pool (c : CC) (n : String) (g : Fam) : (c.addAssoc n).pool g = c.pool g := by
+  unfold CC.addAssoc; split <;> rfl
+
+theorem addAssoc_WF {c : CC} (hc : c.WF) (n : String) : (c.addAssoc n).WF := by
+  intro g p hp; rw [addAssoc_pool] at hp; exact hc g p hp
+
+/-- recording an existing node's pod CIDRs only adds to the pools -/
+theorem occupyNode_poolsLe (name : String) (cidrs : List Cidr) (hw : ∀ cd ∈ cidrs, cd.WF) :
+    ∀ (l : List Nat) (a : Alloc), a.WF → (a.occupyNode name cidrs l).1.WF ∧ PoolsLe a (a.occupyNode name cidrs l).1 := by
+  intro l
+  induction l with
+  | nil => intro a ha; exact ⟨ha, PoolsLe.refl a⟩
+  | cons i rest ih =>
+    intro a ha
+    unfold Alloc.occupyNode
+    cases hg : a.get? i with
+    | none => simp only; exact ih a ha
+    | some c =>
+      simp only
+      obtain ⟨hwf', hle'⟩ := CC.occupyList_poolsLe cidrs c (ha i c hg) hw
+      cases hr : c.occupyList cidrs with
+      | mk c' okk =>
+        rw [hr] at hwf' hle'
+        cases okk with
+        | true =>
+          simp only
+          refine ⟨Alloc.WF_set ha (addAssoc_WF hwf' name), PoolsLe_set hg (fun g => ?_)⟩
+          rw [addAssoc_pool]; exact hle' g
+        | false =>
+          simp only
+          have h1 : (a.set i c').WF := Alloc.WF_set ha hwf'
+          obtain ⟨h2, h3⟩ := ih (a.set i c') h1
+          exact ⟨h2, PoolsLe.trans (PoolsLe_set hg hle') h3⟩
+
+theorem occupyCIDRs_poolsLe (a : Alloc) (ha : a.WF) (n : NodeObj) (hw : ∀ cd ∈ n.cidrs, cd.WF) :
+    (occupyCIDRs a n).1.WF ∧ PoolsLe a (occupyCIDRs a n).1 := by
+  unfold occupyCIDRs
+  simp only
+  split
+  · exact ⟨ha, PoolsLe.refl a⟩
+  · split
+    · exact ⟨ha, PoolsLe.refl a⟩
+    · exact occupyNode_poolsLe n.name n.cidrs hw _ a ha
+
+theorem bootNodes_poolsLe : ∀ (l : List NodeObj) (a : Alloc), a.WF → (∀ n ∈ l, ∀ cd ∈ n.cidrs, cd.WF) →
+    (bootNodes a l).WF ∧ PoolsLe a (bootNodes a l) := by
+  intro l
+  induction l with
+  | nil => intro a ha _; exact ⟨ha, PoolsLe.refl a⟩
+  | cons n rest ih =>
+    intro a ha hw
+    unfold bootNodes
+    split
+    · exact ih a ha (fun m hm => hw m (List.mem_cons_of_mem _ hm))
+    · obtain ⟨h1, h2⟩ := occupyCIDRs_poolsLe a ha n (hw n (List.mem_cons_self ..))
+      obtain ⟨h3, h4⟩ := ih _ h1 (fun m hm => hw m (List.mem_cons_of_mem _ hm))
+      exact ⟨h3, PoolsLe.trans h2 h4⟩
+
+theorem updateCC_nodes (a : Api) (name : String) (rv : Nat) (fins : List String) :
+    (a.updateCC name rv fins).1.nodes = a.nodes := by
+  unfold Api.updateCC
+  split
+  · rfl
+  · split
+    · rfl
+    · split <;> rfl
+
+theorem attemptUpdate_nodes (a : Api) (name : String) (rv : Nat) (fins : List String) (w : WOut) :
+    (attemptUpdate a name rv fins w).1.nodes = a.nodes := by
+  unfold attemptUpdate
+  cases w <;> simp only <;> first | rfl | exact updateCC_nodes ..
+
+theorem createClusterCIDR_WF (s : Sys) (hs : s.alloc.WF) (o : CCObj) (ho : SpecOK o.spec) (t : Bool) (w : WOut) :
+    (createClusterCIDR s o t w).1.alloc.WF ∧ (createClusterCIDR s o t w).1.svcs = s.svcs ∧
+    (createClusterCIDR s o t w).1.api.nodes = s.api.nodes := by
+  unfold createClusterCIDR
+  cases hc : s.alloc.createCC o.name o.spec t with
+  | none => refine ⟨hs, ?_, ?_⟩ <;> first | rfl | trivial
+  | some al =>
+    simp only
+    refine ⟨createCC_WF hs ho hc, ?_, ?_⟩
+    · first | rfl | trivial
+    · exact attemptUpdate_nodes _ _ _ _ _
+
+theorem bootCCs_WF : ∀ (l : List CCObj) (s : Sys) (ws : List WOut) (acc : List (String × List String × String)),
+    s.alloc.WF → (∀ o ∈ l, SpecOK o.spec) →
+    (bootCCs s l ws acc).1.alloc.WF ∧ (bootCCs s l ws acc).1.svcs = s.svcs ∧ (bootCCs s l ws acc).1.api.nodes = s.api.nodes := by
+  intro l
+  induction l with
+  | nil => intro s ws acc hs _; exact ⟨hs, rfl, rfl⟩
+  | cons o rest ih =>
+    intro s ws acc hs hl
+    unfold bootCCs
+    simp only
+    obtain ⟨h1, h2, h3⟩ := createClusterCIDR_WF s hs o (hl o (List.mem_cons_self ..)) (decide (o.generation > 1)) (ws.headD .ok)
+    obtain ⟨h4, h5, h6⟩ := ih (createClusterCIDR s o (decide (o.generation > 1)) (ws.headD .ok)).1
+      (if (createClusterCIDR s o (decide (o.generation > 1)) (ws.headD .ok)).2.ccWrites.isEmpty then ws else ws.tail)
+      (acc ++ (createClusterCIDR s o (decide (o.generation > 1)) (ws.headD .ok)).2.ccWrites) h1
+      (fun x hx => hl x (List.mem_cons_of_mem _ hx))
+    exact ⟨h4, h5.trans h2, h6.trans h3⟩
+
+theorem mem_sortCCObjs (l : List CCObj) (o : CCObj) (h : o ∈ sortCCObjs l) : o ∈ l := by
+  unfold sortCCObjs at h
+  obtain ⟨n, _, hn⟩ := List.mem_filterMap.mp h
+  unfold getCC at hn
+  exact List.mem_of_find?_eq_some hn
+
+theorem mem_sortNodeObjs (l : List NodeObj) (o : NodeObj) (h : o ∈ sortNodeObjs l) : o ∈ l := by
+  unfold sortNodeObjs at h
+  obtain ⟨n, _, hn⟩ := List.mem_filterMap.mp h
+  unfold getNode at hn
+  exact List.mem_of_find?_eq_some hn
+
+/-- **start-up covers every configured service range in every ClusterCIDR known at that time** -/
+theorem boot_covers (s : Sys) (svcs : List Cidr) (ws : List WOut)
+    (hspecs : ∀ o ∈ s.api.ccs, SpecOK o.spec) (hsvcs : ∀ sv ∈ svcs, sv.WF)
+    (hnodes : ∀ n ∈ s.api.nodes, ∀ cd ∈ n.cidrs, cd.WF) :
+    (boot s svcs ws).1.alloc.WF ∧ CoveredAll (boot s svcs ws).1 := by
+  unfold boot
+  simp only
+  have hinit : (Alloc.mk []).WF := by intro j c h; simp [Alloc.get?] at h
+  obtain ⟨h1, h2, h3⟩ := bootCCs_WF (sortCCObjs s.api.ccs)
+    { s with alloc := ⟨[]⟩, nodeView := [], ccView := [], nodeQ := [], ccQ := [], svcs := svcs } ws [] hinit
+    (fun o ho => hspecs o (mem_sortCCObjs _ _ ho))
+  obtain ⟨h4, h5, _⟩ := filterAll_covers svcs _ h1 hsvcs
+  obtain ⟨h7, h8⟩ := bootNodes_poolsLe (sortNodeObjs s.api.nodes) _ h4
+    (fun n hn => hnodes n (mem_sortNodeObjs _ _ hn))
+  refine ⟨h7, ?_⟩
+  intro sv hsv
+  simp only at hsv
+  rw [h2] at hsv
+  exact ⟨hsvcs sv hsv, Covered_of_poolsLe h8 (h5 sv hsv)⟩
+
+
+
+/-- non-vacuity: a state with a ClusterCIDR, a node holding one of its blocks and a service range inside
+it meets the hypotheses of `boot_covers` -/
+example :
+    let cc : CCObj := ⟨"cc", ⟨none, 4, .ok ⟨.v4, 167772160, 24⟩ "10.0.0.0/24", .empty⟩, [], false, 1, 1⟩
+    let nd : NodeObj := ⟨"n", [], [⟨.v4, 167772160 + 32, 28⟩], false, false⟩
+    let s : Sys := { (Sys.init) with api := { (Sys.init).api with ccs := [cc], nodes := [nd] } }
+    (∀ o ∈ s.api.ccs, SpecOK o.spec) ∧ (∀ sv ∈ [(⟨.v4, 167772160, 26⟩ : Cidr)], sv.WF) ∧
+    (∀ n ∈ s.api.nodes, ∀ cd ∈ n.cidrs, cd.WF) := by
+  refine ⟨?_, ?_, ?_⟩
+  · intro o ho
+    simp only [List.mem_singleton] at ho
+    subst ho
+    exact ⟨⟨by decide, by decide⟩, trivial⟩
+  · intro sv hsv
+    simp only [List.mem_singleton] at hsv
+    subst hsv; decide
+  · intro n hn cd hcd
+    simp only [List.mem_singleton] at hn
+    subst hn
+    simp only [List.mem_singleton] at hcd
+    subst hcd; decide
+
 end Ipam.C09
